@@ -775,7 +775,9 @@ func (i *Interpreter) callCallable(fn interface{}, args []interface{}) (interfac
 	case *LambdaClosure:
 		return i.callLambdaClosure(f, args)
 	case Function:
-		fnEnv := NewChildEnvironment(NewEnvironment())
+		// The callback's body resolves names like any other function body:
+		// parameters first, then the module scope (other functions, constants).
+		fnEnv := NewChildEnvironment(i.globalEnv)
 		for idx, param := range f.Params {
 			if idx < len(args) {
 				fnEnv.Define(param.Name, args[idx])
